@@ -15,6 +15,7 @@ import (
 	"github.com/openbao/openbao/sdk/v2/helper/verifx"
 	"github.com/openbao/openbao/sdk/v2/logical"
 	"github.com/openbao/openbao/v2/internal/audit"
+	"github.com/openbao/openbao/v2/internal/helper/namespace"
 	"github.com/openbao/openbao/v2/internal/vault/routing"
 	"pgregory.net/rapid"
 )
@@ -73,6 +74,8 @@ func (d *c11Dev) Reload(ctx context.Context) error                      { return
 func (d *c11Dev) Invalidate(ctx context.Context)                        {}
 
 type c11Env struct {
+	ns1  *namespace.Namespace
+	nsTok string
 	tc   *tcore
 	hub  *recHub
 	ah   *c11Hub
@@ -108,6 +111,21 @@ func newC11Env(t *testing.T, ndev int) *c11Env {
 	if e.tok == "" {
 		t.Fatalf("harness: token")
 	}
+	// the same backend and a token inside a child namespace: audit devices are global, requests of every namespace
+	// go through them
+	tc.mustOK(tc.req(logical.UpdateOperation, "sys/namespaces/ns1", tc.root, nil), "namespace")
+	ns1, err := tc.c.namespaceStore.GetNamespaceByPath(tc.ctx, "ns1/")
+	if err != nil || ns1 == nil {
+		t.Fatalf("harness: namespace lookup: %v", err)
+	}
+	e.ns1 = ns1
+	tc.mustOK(tc.reqNS(ns1, logical.UpdateOperation, "sys/mounts/rb", tc.root, map[string]any{"type": "recbe"}), "mount in ns1")
+	tc.mustOK(tc.reqNS(ns1, logical.UpdateOperation, "sys/policy/c11", tc.root, map[string]any{"policy": `path "rb/*" { capabilities = ["create","read","update","delete","list"] }`}), "policy in ns1")
+	tr := tc.reqNS(ns1, logical.UpdateOperation, "auth/token/create", tc.root, map[string]any{"policies": []string{"default", "c11"}, "ttl": "1h"})
+	if !tr.ok() || tr.resp == nil || tr.resp.Auth == nil {
+		t.Fatalf("harness: token in ns1: %v", tr)
+	}
+	e.nsTok = tr.resp.Auth.ClientToken
 	return e
 }
 
@@ -145,9 +163,14 @@ func TestVerif_C11_BrokerOrder(t *testing.T) {
 				}
 			}
 		}
+		inNS := fairIndex(rt, "requestInChildNamespace", 3) == 0
 		if kind == "kvread" {
 			// seed the value without faults
-			tc.mustOK(tc.req(logical.UpdateOperation, "rb/kv/c", tc.root, map[string]any{"v": canary}), "seed")
+			if inNS {
+				tc.mustOK(tc.reqNS(e.ns1, logical.UpdateOperation, "rb/kv/c", tc.root, map[string]any{"v": canary}), "seed")
+			} else {
+				tc.mustOK(tc.req(logical.UpdateOperation, "rb/kv/c", tc.root, map[string]any{"v": canary}), "seed")
+			}
 		}
 		var req *logical.Request
 		switch kind {
@@ -166,7 +189,16 @@ func TestVerif_C11_BrokerOrder(t *testing.T) {
 		// the backend's existence check (i.e. between the token check and the request audit) or inside the handler
 		// (before the response audit). None of this may let a request through unaudited.
 		cancelAt := []string{"never", "never", "never", "exist", "handle", "before"}[fairIndex(rt, "clientContextEnds", 6)]
-		ctx, cancel := context.WithCancel(tc.ctx)
+		baseCtx := tc.ctx
+		if inNS {
+			baseCtx = namespace.ContextWithNamespace(context.Background(), e.ns1)
+			req.ClientToken = e.nsTok
+			if fairIndex(rt, "parentNamespaceToken", 3) == 0 {
+				req.ClientToken = tc.root
+			}
+			rec.Class("request-in-child-namespace", 1)
+		}
+		ctx, cancel := context.WithCancel(baseCtx)
 		defer cancel()
 		if cancelAt == "before" {
 			cancel()
@@ -234,9 +266,9 @@ func TestVerif_C11_BrokerOrder(t *testing.T) {
 		for i, ev := range events {
 			evs[i] = fmt.Sprintf("#%d %s %s %s", ev.seq, ev.dev, ev.phase, ev.outcome)
 		}
-		detail := map[string]any{"devices": ndev, "kind": kind, "client_context_ended": cancelAt, "script": fmt.Sprint(script), "audit_events": evs, "invocations": len(invoked), "result": res.String(), "canary_in_response": leaked}
+		detail := map[string]any{"devices": ndev, "kind": kind, "in_child_namespace": inNS, "client_context_ended": cancelAt, "script": fmt.Sprint(script), "audit_events": evs, "invocations": len(invoked), "result": res.String(), "canary_in_response": leaked}
 		carries := kind == "echo" || kind == "kvread" || kind == "secret"
-		rec.Case(fmt.Sprintf("devs=%d", ndev), failing || cancelAt != "never", verifx.Digest(ndev, kind, cancelAt, fmt.Sprint(script)), func() any { return detail })
+		rec.Case(fmt.Sprintf("devs=%d", ndev), failing || cancelAt != "never", verifx.Digest(ndev, kind, cancelAt, inNS, fmt.Sprint(script)), func() any { return detail })
 		// (1) invocation implies an earlier accepted request entry
 		for _, c := range invoked {
 			if acc["req"] == 0 || firstAccept["req"] > c.Seq {
